@@ -36,7 +36,7 @@ def bad_line(rng, dl, cm, prev_entry):
     return kind, ind + k + grammar.blanks(rng, 1, 2) + first + rest
 
 def gen(rng, tier):
-    n = 1800 if tier == "quick" else 30000
+    n = 1800 if tier == "quick" else 60000
     asts = []
     for _ in range(n):
         dl = rng.choice(grammar.DELIMS); cm = rng.choice(grammar.COMMENTS)
